@@ -50,6 +50,13 @@ func (k Keeper) SaveNextPlan(ctx sdk.Context, plan types.Plan) error {
 	return nil
 }
 
+// RestoreNextPlan stores a plan read from genesis exactly as it was exported, also one whose upgrade
+// time has arrived already (exported in the middle of its execution, or imported after its time): the
+// next BeginBlock carries on with it
+func (k Keeper) RestoreNextPlan(ctx sdk.Context, plan types.Plan) {
+	k.setNextPlan(ctx, plan)
+}
+
 func (k Keeper) setNextPlan(ctx sdk.Context, plan types.Plan) {
 	store := ctx.KVStore(k.storeKey)
 	bz, err := proto.Marshal(&plan)
